@@ -247,6 +247,20 @@ theorem either_apply_assoc_pure (f : α → β → γ) (g : γ → δ → ψ) (a
       = Either.apply3 (fun x y z => pure (g (f x y) z)) a b c := by
   cases a <;> cases b <;> cases c <;> simp [Either.apply2_eq, Either.apply3_eq]
 
+theorem either_apply1_eq_map (f : α → K σ δ) (e : Either φ α) : Either.apply1 f e = Either.map e f := by
+  rw [Either.apply1_eq, Either.map_eq]
+
+/-- applicative homomorphism -/
+theorem either_apply_homomorphism (f : α → β → K σ δ) (x : α) (y : β) :
+    Either.apply2 f (.success x : Either φ α) (.success y) = .success <$> f x y := by
+  simp [Either.apply2_eq]
+
+/-- composition with effects, outer argument a success (otherwise the inner function has already run, as in C++) -/
+theorem either_apply_assoc (f : α → β → K σ γ) (g : γ → δ → K σ ψ) (a : Either φ α) (b : Either φ β) (z : δ) :
+    (Either.apply2 f a b >>= fun r => Either.apply2 g r (.success z))
+      = Either.apply3 (fun x y z => f x y >>= fun w => g w z) a b (.success z) := by
+  cases a <;> cases b <;> simp [Either.apply2_eq, Either.apply3_eq]
+
 /-- effect-free versions of the documented results -/
 theorem opt_filter_pure (o : Option α) (p : α → Bool) :
     Opt.filter o (fun x => (pure (p x) : K σ Bool)) = pure (o.filter p) := by
